@@ -146,6 +146,52 @@ impl Mux {
     }
 }
 
+
+impl Mux {
+    /// transmit the sections back to back on `pid` the way a tightly packing multiplexer does: when a section ends inside
+    /// a packet in which no section has started yet, the next one starts right behind it (pointer_field = bytes of the
+    /// old section in this packet); at most one section starts per packet; the last packet is stuffed with 0xff.
+    /// Returns (first packet, last packet, section bytes in the start packet) per section.
+    pub fn psi_packed(&mut self, pid: u16, sects: &[Vec<u8>], rng: &mut Rng) -> Vec<(usize, usize, usize)> {
+        let mut out: Vec<(usize, usize, usize)> = vec![];
+        let mut carry: Vec<u8> = vec![];           // bytes of the section in progress that are still to be sent
+        let mut k = 0usize;
+        while k < sects.len() || !carry.is_empty() {
+            let idx = self.pkts.len();
+            if carry.len() >= 184 {
+                let chunk: Vec<u8> = carry.drain(..184).collect();
+                self.data_packet(pid, false, &chunk, rng);
+            } else if carry.is_empty() {
+                let s = &sects[k]; k += 1;
+                let n = s.len().min(183);
+                let mut pl = vec![0u8]; pl.extend_from_slice(&s[..n]);
+                carry = s[n..].to_vec();
+                if carry.is_empty() { pl.resize(184, 0xff); }
+                out.push((idx, idx, n));
+                self.data_packet(pid, true, &pl, rng);
+            } else if k < sects.len() && carry.len() <= 182 {
+                // the old section ends here and the next one starts behind it
+                let tail = std::mem::take(&mut carry);
+                let s = &sects[k]; k += 1;
+                let room = 183 - tail.len();
+                let n = s.len().min(room);
+                let mut pl = vec![tail.len() as u8]; pl.extend_from_slice(&tail); pl.extend_from_slice(&s[..n]);
+                carry = s[n..].to_vec();
+                if carry.is_empty() { pl.resize(184, 0xff); }
+                if let Some(l) = out.last_mut() { l.1 = idx; }
+                out.push((idx, idx, n));
+                self.data_packet(pid, true, &pl, rng);
+            } else {
+                let mut chunk = std::mem::take(&mut carry);
+                chunk.resize(184, 0xff);
+                self.data_packet(pid, false, &chunk, rng);
+            }
+            if !carry.is_empty() || true { if let Some(l) = out.last_mut() { if l.1 < idx { l.1 = idx; } } }
+        }
+        out
+    }
+}
+
 // ---- PES ----
 pub fn enc_ts(prefix: u8, v: u64) -> [u8; 5] {
     [(prefix << 4) | ((((v >> 30) & 7) as u8) << 1) | 1, (v >> 22) as u8, ((((v >> 15) & 0x7f) as u8) << 1) | 1, (v >> 7) as u8, (((v & 0x7f) as u8) << 1) | 1]
